@@ -206,3 +206,81 @@ func Verif_C05_absent() {
 		verifReach("ill-typed")
 	}
 }
+
+type (
+	verifInner struct {
+		X int8  `key:"x"`
+		Y uint8 `key:"y,optional"`
+	}
+	verifNested struct {
+		In verifInner `key:"in"`
+	}
+	verifNestedPtr struct {
+		In *verifInner `key:"in,optional"`
+	}
+	verifSlice struct {
+		L []int8 `key:"l"`
+	}
+	verifMap struct {
+		M map[string]int16 `key:"m"`
+	}
+	verifEmbedded struct {
+		verifInner
+		Z int16 `key:"z"`
+	}
+)
+
+// H05g: composite shapes: nested struct, optional pointer-to-struct, slice,
+// map, embedded struct — every numeric leaf equals the document's value exactly
+// or unmarshalling fails.
+func Verif_C05_shapes() {
+	c := verifCase(5)
+	numStr, val := verifNum("a", verifParam("digits"))
+	n := json.Number(numStr)
+	switch c {
+	case 0:
+		var t verifNested
+		err := UnmarshalKey(map[string]any{"in": map[string]any{"x": n}}, &t)
+		if err == nil {
+			verifAssert(int64(t.In.X) == val && t.In.Y == 0, "nested struct leaf equals the document's number exactly; optional absent leaf stays zero")
+			verifReach("nested-ok")
+		}
+		var t2 verifNested
+		verifAssert(UnmarshalKey(map[string]any{"in": map[string]any{"y": n}}, &t2) != nil, "a required leaf absent in a nested struct makes unmarshalling fail")
+	case 1:
+		var t verifNestedPtr
+		present := verifChoose("present", 2) == 1
+		doc := map[string]any{}
+		if present {
+			doc["in"] = map[string]any{"x": n}
+		}
+		err := UnmarshalKey(doc, &t)
+		if !present {
+			verifAssert(err == nil && t.In == nil, "an optional absent pointer-to-struct stays nil")
+		} else if err == nil {
+			verifAssert(t.In != nil && int64(t.In.X) == val, "pointer-to-struct leaf equals the document's number exactly")
+			verifReach("nestedptr-ok")
+		}
+	case 2:
+		var t verifSlice
+		err := UnmarshalKey(map[string]any{"l": []any{n, json.Number("5")}}, &t)
+		if err == nil {
+			verifAssert(len(t.L) == 2 && int64(t.L[0]) == val && t.L[1] == 5, "slice elements equal the document's numbers exactly, in order")
+			verifReach("slice-ok")
+		}
+	case 3:
+		var t verifMap
+		err := UnmarshalKey(map[string]any{"m": map[string]any{"k": n}}, &t)
+		if err == nil {
+			verifAssert(len(t.M) == 1 && int64(t.M["k"]) == val, "map values equal the document's numbers exactly")
+			verifReach("map-ok")
+		}
+	case 4:
+		var t verifEmbedded
+		err := UnmarshalKey(map[string]any{"x": n, "z": json.Number("9")}, &t)
+		if err == nil {
+			verifAssert(int64(t.X) == val && t.Z == 9 && t.Y == 0, "embedded struct leaves are filled from the outer document exactly")
+			verifReach("embedded-ok")
+		}
+	}
+}
